@@ -128,58 +128,100 @@ class _Recorder:
 
 # ----------------------------------------------------------------------------- direct statsmodels calls
 _DENSE = {}
-ADAPTERS = ("ses", "holt", "holtd", "hw", "ets", "etsa", "theta")
-HW_SP = 4
+ADAPTERS = ("es", "ets", "theta")
+ES_DEFAULTS = dict(trend=None, damped_trend=False, seasonal=None, sp=None, use_boxcox=None, initial_level=None, initial_trend=None,
+                   initial_seasonal=None, initialization_method="estimated")
+ETS_DEFAULTS = dict(error="add", trend=None, damped_trend=False, seasonal=None, sp=1, initialization_method="estimated",
+                    initial_level=None, initial_trend=None, initial_seasonal=None, maxiter=1000)
+THETA_DEFAULTS = dict(initial_level=None, sp=1)
 
 
-def _sm_opts(cls):
-    """(sktime class name, sktime kwargs, direct-call builder) with THE SAME options"""
-    if cls in ("ses", "theta"):
-        return dict(trend=None, damped_trend=False, seasonal=None, sp=None if cls == "ses" else 1)
-    if cls == "holt":
-        return dict(trend="add", damped_trend=False, seasonal=None, sp=None)
-    if cls == "holtd":
-        return dict(trend="add", damped_trend=True, seasonal=None, sp=None)
-    if cls == "hw":
-        return dict(trend="add", damped_trend=False, seasonal="add", sp=HW_SP)
-    if cls == "ets":
-        return dict(error="add", trend=None, damped_trend=False, seasonal=None, sp=1)
-    if cls == "etsa":
-        return dict(error="add", trend="add", damped_trend=False, seasonal=None, sp=1)
-    raise ValueError(cls)
+def _opts(c):
+    d = dict({"es": ES_DEFAULTS, "ets": ETS_DEFAULTS, "theta": THETA_DEFAULTS}[c["cls"]])
+    d.update(c.get("opts") or {})
+    return d
+
+
+def _cv(v):
+    """canonical atom for an option value (no spaces, ':' or ';')"""
+    if v is None:
+        return "None"
+    if isinstance(v, (bool, np.bool_)):
+        return show_bool(bool(v))
+    if isinstance(v, str):
+        return v
+    if isinstance(v, (list, tuple, np.ndarray, pd.Series)):
+        return "[" + "|".join(_cv(x) for x in list(v)) + "]"
+    if isinstance(v, (int, float, np.integer, np.floating)):
+        return show_rat(float(v))
+    return type(v).__name__
+
+
+def _show_args(pairs):
+    return "-" if not pairs else ";".join("%s:%s" % (k, _cv(v)) for k, v in pairs)
+
+
+def expected_sm_args(c):
+    """What the statement means by 'the wrapped statsmodels model fitted with the same options': every documented option of
+    the forecaster reaches the statsmodels keyword of the same meaning (sp -> seasonal_periods).  (ctor pairs, fit pairs)"""
+    o = _opts(c)
+    if c["cls"] == "es":
+        return ([("trend", o["trend"]), ("damped_trend", o["damped_trend"]), ("seasonal", o["seasonal"]), ("seasonal_periods", o["sp"]),
+                 ("use_boxcox", o["use_boxcox"]), ("initial_level", o["initial_level"]), ("initial_trend", o["initial_trend"]),
+                 ("initial_seasonal", o["initial_seasonal"]), ("initialization_method", o["initialization_method"])], [])
+    if c["cls"] == "ets":
+        return ([("error", o["error"]), ("trend", o["trend"]), ("damped_trend", o["damped_trend"]), ("seasonal", o["seasonal"]),
+                 ("seasonal_periods", o["sp"]), ("initialization_method", o["initialization_method"]), ("initial_level", o["initial_level"]),
+                 ("initial_trend", o["initial_trend"]), ("initial_seasonal", o["initial_seasonal"]), ("bounds", None), ("dates", None),
+                 ("freq", None), ("missing", "none")],
+                [("start_params", None), ("maxiter", o["maxiter"]), ("full_output", True), ("disp", False), ("callback", None),
+                 ("return_params", False)])
+    # theta = simple exponential smoothing (+ drift): no trend / seasonal component in the wrapped model
+    lvl = o["initial_level"]
+    return ([("trend", None), ("damped_trend", False), ("seasonal", None), ("seasonal_periods", o["sp"]), ("use_boxcox", None),
+             ("initial_level", lvl), ("initial_trend", None), ("initial_seasonal", None),
+             ("initialization_method", "known" if lvl is not None else "estimated")], [])   # "if the value is set then this will be used"
+
+
+def _opts_line(c):
+    """the forecaster's parameters as handed to the model (ets: plus the fixed constructor defaults it documents)"""
+    o = _opts(c)
+    if c["cls"] == "ets":
+        o = dict(o, bounds=None, dates=None, freq=None, missing="none", start_params=None, full_output=True, disp=False,
+                 callback=None, return_params=False)
+    return _show_args(sorted(o.items()))
 
 
 def _direct_dense(c):
-    """the wrapped statsmodels model fitted directly with the same options, predicted densely for
+    """the wrapped statsmodels model built DIRECTLY with the same options and fitted on the same data, predicted densely for
     positions 0 .. n + max(9, max fh); memoised (to_line and oracle share it)"""
-    key = (c["cls"], tuple(c["y"]))
-    horizon = max([9] + list(c["fh"]))
-    if key in _DENSE and len(_DENSE[key]) >= len(c["y"]) + horizon + 1:
-        return _DENSE[key]
+    key = (c["cls"], _opts_line(c), tuple(c["y"]))
+    horizon = max([12] + list(c["fh"]))
+    if key in _DENSE:
+        if isinstance(_DENSE[key], Exception):
+            raise _DENSE[key]
+        if len(_DENSE[key]) >= len(c["y"]) + horizon + 1:
+            return _DENSE[key]
     y = pd.Series([float(v) for v in c["y"]], index=pd.RangeIndex(0, len(c["y"])), dtype="float64")
-    o = _sm_opts(c["cls"])
-    with warnings.catch_warnings():
-        warnings.simplefilter("ignore")
-        if c["cls"] in ("ets", "etsa"):
-            from statsmodels.tsa.exponential_smoothing.ets import ETSModel
-            m = ETSModel(y, error=o["error"], trend=o["trend"], damped_trend=o["damped_trend"], seasonal=o["seasonal"],
-                         seasonal_periods=o["sp"], initialization_method="estimated", initial_level=None,
-                         initial_trend=None, initial_seasonal=None, bounds=None, dates=None, freq=None, missing="none")
-            r = m.fit(start_params=None, maxiter=1000, full_output=True, disp=False, callback=None, return_params=False)
-        else:
-            from statsmodels.tsa.holtwinters import ExponentialSmoothing as SM
-            m = SM(y, trend=o["trend"], damped_trend=o["damped_trend"], seasonal=o["seasonal"], seasonal_periods=o["sp"],
-                   use_boxcox=None, initial_level=None, initial_trend=None, initial_seasonal=None,
-                   initialization_method="estimated")
-            r = m.fit()
-        dense = [float(v) for v in r.predict(0, len(c["y"]) + horizon).values]
-        if c["cls"] == "theta":
-            _DENSE[key + ("alpha",)] = float(r.params["smoothing_level"])
-    _DENSE[key] = dense
-    if len(_DENSE) > 4000:
-        for k in list(_DENSE)[:2000]:
+    ctor, fitkw = expected_sm_args(c)
+    try:
+        with warnings.catch_warnings():
+            warnings.simplefilter("ignore")
+            with np.errstate(all="ignore"):
+                if c["cls"] == "ets":
+                    from statsmodels.tsa.exponential_smoothing.ets import ETSModel
+                    r = ETSModel(y, **dict(ctor)).fit(**dict(fitkw))
+                else:
+                    from statsmodels.tsa.holtwinters import ExponentialSmoothing as SM
+                    r = SM(y, **dict(ctor)).fit(**dict(fitkw))
+                dense = [float(v) for v in r.predict(0, len(c["y"]) + horizon).values]
+    except Exception as e:
+        _DENSE[key] = e
+        raise
+    if len(_DENSE) > 3000:
+        for k in list(_DENSE)[:1500]:
             _DENSE.pop(k, None)
-        _DENSE[key] = dense
+    _DENSE[key] = dense
     return dense
 
 
@@ -228,7 +270,7 @@ def to_line(c):
         except Exception:
             return None
         n = len(c["y"])
-        return "C11 adapter %d %d %s %s %s" % (c["origin"], n, _fh_line(c, n), show_bool(c["rel"]), show_rats(dense))
+        return "C11 adapter %s %s %d %d %s %s %s" % (c["cls"], _opts_line(c), c["origin"], n, _fh_line(c, n), show_bool(c["rel"]), show_rats(dense))
     raise ValueError(k)
 
 
@@ -300,6 +342,88 @@ def _run_object(c):
     return " ".join([main] + flags)
 
 
+class _Spy:
+    """stands in for the statsmodels class inside the sktime module: records the keyword arguments of the constructor and of
+    fit (positional arguments are bound to their names, omitted ones take the statsmodels default) and delegates"""
+
+    def __init__(self, orig, rec):
+        self.orig, self.rec = orig, rec
+
+    def __call__(self, endog, *a, **kw):
+        import inspect
+        b = inspect.signature(self.orig.__init__).bind(None, endog, *a, **kw)
+        b.apply_defaults()
+        self.rec["ctor"] = {k: v for k, v in b.arguments.items() if k not in ("self", "endog")}
+        self.rec["ctor"].update(self.rec["ctor"].pop("kwargs", {}) or {})
+        model = self.orig(endog, *a, **kw)
+        rec, fit0 = self.rec, model.fit
+
+        def fit(*fa, **fk):
+            import inspect as _i
+            fb = _i.signature(fit0).bind(*fa, **fk)
+            rec["fit_given"] = dict(fb.arguments)
+            rec["fit_given"].update(rec["fit_given"].pop("kwargs", {}) or {})
+            fb.apply_defaults()
+            rec["fit"] = dict(fb.arguments)
+            rec["fit"].update(rec["fit"].pop("kwargs", {}) or {})
+            return fit0(*fa, **fk)
+        model.fit = fit
+        return model
+
+
+def _run_adapter(c):
+    """sktime forecaster with the case's options; the statsmodels class it wraps is replaced by a recording stand-in.
+    Output: forecast (or error) + ctor=<options the statsmodels constructor received> fitkw=<options fit received>"""
+    y = _series(c)
+    o = _opts(c)
+    rec = {}
+    if c["cls"] == "ets":
+        import sktime.forecasting.ets as M
+        name = "_ETSModel"
+        f = M.AutoETS(error=o["error"], trend=o["trend"], damped_trend=o["damped_trend"], seasonal=o["seasonal"], sp=o["sp"],
+                      initialization_method=o["initialization_method"], initial_level=o["initial_level"], initial_trend=o["initial_trend"],
+                      initial_seasonal=o["initial_seasonal"], maxiter=o["maxiter"])
+    else:
+        import sktime.forecasting.exp_smoothing as M
+        name = "_ExponentialSmoothing"
+        if c["cls"] == "theta":
+            from sktime.forecasting.theta import ThetaForecaster
+            f = ThetaForecaster(initial_level=o["initial_level"], deseasonalize=False, sp=o["sp"])
+        else:
+            f = M.ExponentialSmoothing(trend=o["trend"], damped_trend=o["damped_trend"], seasonal=o["seasonal"], sp=o["sp"],
+                                       initial_level=o["initial_level"], initial_trend=o["initial_trend"], initial_seasonal=o["initial_seasonal"],
+                                       use_boxcox=o["use_boxcox"], initialization_method=o["initialization_method"])
+    orig = getattr(M, name)
+    setattr(M, name, _Spy(orig, rec))
+    try:
+        def go():
+            f.fit(y)
+            p = f.predict(fh=_fh(c))
+            if c["cls"] == "theta":
+                # the adapter's share of the Theta forecast: what the wrapped SES model contributed.
+                # ThetaForecaster._predict = adapter forecast + drift; the drift it adds is recomputed from its
+                # public fitted attributes and removed, so that the wrapped-model part is compared like the others.
+                h = np.array(sorted(c["fh"]), dtype="float64")
+                a = f.initial_level_
+                drift = f.trend_ * (h if np.isclose(a, 0.0) else h + (1 - (1 - a) ** len(y)) / a)
+                p = p - drift
+            return p
+        p = _attempt(go)
+    finally:
+        setattr(M, name, orig)
+    main = p if isinstance(p, str) else _show_series(p)
+    ctor_names, fit_names = [[k for k, _ in part] for part in expected_sm_args(c)]
+    flags = []
+    if "ctor" in rec:
+        flags.append("ctor=" + _show_args([(k, rec["ctor"].get(k, "<missing>")) for k in ctor_names]))
+    if "fit" in rec:
+        if c["cls"] == "ets":
+            flags.append("fitkw=" + _show_args([(k, rec["fit"].get(k, "<missing>")) for k in fit_names]))
+        else:                                               # fit() is documented to be called without options
+            flags.append("fitkw=" + _show_args(sorted(rec["fit_given"].items())))
+    return " ".join([main] + flags)
+
+
 def run_real(c):
     k = c["kind"]
     with warnings.catch_warnings():
@@ -330,41 +454,20 @@ def run_real(c):
                     rows = lambda X: "-" if X is None or len(X) == 0 else ";".join(show_rats([float(v) for v in r]) for r in X)
                     return "fit=%s pred=%s idx=%s" % (rows(rec.Xfit), rows(rec.Xpred), show_ints([int(v) for v in p.index]))
                 if k == "adapter":
-                    y = _series(c)
-                    o = _sm_opts(c["cls"])
-                    if c["cls"] in ("ets", "etsa"):
-                        from sktime.forecasting.ets import AutoETS
-                        f = AutoETS(error=o["error"], trend=o["trend"], damped_trend=o["damped_trend"], seasonal=o["seasonal"], sp=o["sp"])
-                    elif c["cls"] == "theta":
-                        from sktime.forecasting.theta import ThetaForecaster
-                        f = ThetaForecaster(deseasonalize=False)
-                    else:
-                        from sktime.forecasting.exp_smoothing import ExponentialSmoothing
-                        f = ExponentialSmoothing(trend=o["trend"], damped_trend=o["damped_trend"], seasonal=o["seasonal"], sp=o["sp"])
-                    f.fit(y)
-                    p = f.predict(fh=_fh(c))
-                    if c["cls"] == "theta":
-                        # the adapter's share of the Theta forecast: what the wrapped SES model contributed.
-                        # ThetaForecaster._predict = adapter forecast + drift; the drift it adds is recomputed from its
-                        # public fitted attributes and removed, so that the wrapped-model part is compared like the others.
-                        h = np.array(sorted(c["fh"]), dtype="float64")
-                        a = f.initial_level_
-                        drift = f.trend_ * (h if np.isclose(a, 0.0) else h + (1 - (1 - a) ** len(y)) / a)
-                        p = p - drift
-                    return _show_series(p)
+                    return _run_adapter(c)
             except Exception as e:
                 return canon_err(e)
     raise ValueError(k)
 
 
 # ----------------------------------------------------------------------------- comparison
-FLAGS = ("again=", "kept=", "fresh=")
+FLAGS = ("again=", "kept=", "fresh=", "ctor=", "fitkw=")
 
 
 def _split(out):
     """(forecast part, {flag: 'T'|'F'}) of a real-code output"""
     toks = out.split(" ")
-    flags = {t.split("=")[0]: t.split("=")[1] for t in toks if t.startswith(FLAGS)}
+    flags = {t.split("=", 1)[0]: t.split("=", 1)[1] for t in toks if t.startswith(FLAGS)}
     return " ".join(t for t in toks if not t.startswith(FLAGS)), flags
 
 
@@ -377,7 +480,11 @@ def _parse(out):
 
 
 def compare(real, model):
-    real = _split(real)[0]
+    real, rflags = _split(real)
+    model, mflags = _split(model)
+    for k in ("ctor", "fitkw"):                         # options handed to statsmodels: exact
+        if k in rflags and k in mflags and rflags[k] != mflags[k]:
+            return False
     if real.startswith("E:") or model.startswith("E:"):
         return real == model
     r, m = _parse(real), _parse(model)
@@ -611,14 +718,14 @@ def oracle_adapter(c, out):
         return fails                                      # statsmodels itself cannot fit this series
     site = "adapter:" + c["cls"]
     if out.startswith("E:"):
-        return [(site + ":raises", "adapter raised %s, direct statsmodels call succeeds (n=%d fh=%r)" % (out, n, steps))]
+        return [(site + ":raises", "adapter raised %s, direct statsmodels call succeeds (n=%d fh=%r %s)" % (out, n, steps, _opts_line(c)))]
     vals = parse_rats(_parse(out)["val"])
     if len(vals) != len(steps):
         return [(site + ":length", "%d forecasts for %d steps" % (len(vals), len(steps)))]
     for h, v in zip(steps, vals):
         exp = dense[n - 1 + h]
         if v is None or not close(float(v), Fraction(exp), tol=1e-8):
-            fails.append((site + ":value", "step %d: adapter %s, statsmodels %r (n=%d)" % (h, show_rat(v), exp, n)))
+            fails.append((site + ":value", "step %d: adapter %s, statsmodels built with the same options %r (n=%d %s)" % (h, show_rat(v), exp, n, _opts_line(c))))
     return fails
 
 
@@ -629,6 +736,16 @@ def oracle(c, out):
         # the textbook clauses above were evaluated for the NEW parameters and data: a failure here is a stale-state failure
         fails = [(k + ":after-refit", m + " [object previously fitted with %r on %d other observations]" % (c["hist"]["params"], len(c["hist"]["y"])))
                  for k, m in fails]
+    if c["kind"] == "adapter":
+        exp_ctor, exp_fit = expected_sm_args(c)
+        for flag, exp in (("ctor", exp_ctor), ("fitkw", exp_fit)):
+            if flag in flags and flags[flag] != _show_args(exp):
+                got = dict(t.split(":", 1) for t in flags[flag].split(";")) if flags[flag] != "-" else {}
+                diff = ["%s=%s (forecaster parameter says %s)" % (k, got.get(k, "<absent>"), _cv(v)) for k, v in exp if got.get(k) != _cv(v)]
+                diff += ["unexpected %s=%s" % (k, v) for k, v in got.items() if k not in dict(exp)]
+                names = "+".join(k for k, v in exp if got.get(k) != _cv(v)) or "extra"
+                fails.append(("adapter:%s:%s-options:%s" % (c["cls"], flag, names),
+                              "statsmodels %s received %s (%s)" % ("constructor" if flag == "ctor" else "fit", ", ".join(diff), _opts_line(c))))
     site = c["kind"] + (":" + c["strategy"] if c["kind"] == "naive" else "")
     if flags.get("again") == "F":
         fails.append((site + ":second-predict-differs", "a second predict(fh) on the same fitted object does not repeat the first answer (%s)" % _desc(c)))
@@ -666,7 +783,11 @@ def features(c, out):
     elif c["kind"] in ("trend", "design"):
         f.append("degree=%d icpt=%s" % (c["degree"], c["icpt"]))
     else:
+        o = _opts(c)
         f.append("adapter=" + c["cls"])
+        if c["cls"] != "theta":
+            f.append("adapter %s trend=%s damped=%s" % (c["cls"], o["trend"], o["damped_trend"]))
+            f.append("adapter %s seasonal=%s init=%s" % (c["cls"], o["seasonal"], o["initialization_method"]))
     f.append("out=" + (out if out.startswith("E:") else "ok"))
     return f
 
@@ -734,6 +855,76 @@ def naive_configs(nmax=14, spmax=4):
                 wls = [None, 2] if st == "last" else [None] + list(range(1, n + 1))
                 for wl in wls:
                     yield st, n, sp, wl
+
+
+TRENDS = [None, "add", "mul", "additive", "multiplicative"]
+SEASONALS = [None, "add", "mul", "additive", "multiplicative"]
+ES_INITS = ["estimated", "heuristic", "legacy-heuristic"]
+
+
+def _positive_series(rng, n, sp):
+    base = rng.randrange(20, 60)
+    slope = rng.choice([0, 0.25, 0.5, 1, -0.25])
+    return [base + slope * i + rng.randrange(0, 9) / 4 + (3.0 * ((i % sp) == 0) if sp and sp > 1 else 0) for i in range(n)]
+
+
+def _adapter_case(rng, cls, opts, sp_for_data=None):
+    n = rng.randrange(20, 36)
+    y = _positive_series(rng, n, sp_for_data)
+    pool = list(range(-min(n - 1, 6), 13))
+    fh = sorted(rng.sample(pool, rng.randrange(1, 7)))
+    return {"kind": "adapter", "cls": cls, "opts": opts, "y": y, "origin": rng.choice(ORIGINS), "idx": rng.choice(["range", "int"]),
+            "fh": fh, "rel": rng.random() < 0.7}
+
+
+def adapter_cases(thorough, rng):
+    """fixed-order option product.  ExponentialSmoothing: trend x damped_trend x seasonal (all spellings) x initialisation x sp,
+    + use_boxcox and known initial states; AutoETS(auto=False): error x trend x damped x seasonal x initialisation (+ maxiter);
+    Theta: initial_level x sp.  Combinations statsmodels rejects (damping without trend) are kept: both sides must reject."""
+    out = []
+    k = 0
+    for trend in TRENDS:
+        for damped in (False, True):
+            for seasonal in SEASONALS:
+                inits = ES_INITS if thorough else [ES_INITS[(k + rng.randrange(3)) % 3]]
+                for init in inits:
+                    for sp in ((2, 4) if thorough and seasonal else (rng.choice([2, 3, 4]),)):
+                        k += 1
+                        opts = {"trend": trend, "damped_trend": damped, "seasonal": seasonal, "sp": sp if seasonal else rng.choice([None, None, sp]),
+                                "initialization_method": init}
+                        out.append(_adapter_case(rng, "es", opts, sp))
+    for _ in range(300 if thorough else 40):                # + Box-Cox and known initial states
+        trend, seasonal = rng.choice(TRENDS), rng.choice(SEASONALS)
+        sp = rng.choice([2, 3, 4])
+        opts = {"trend": trend, "damped_trend": bool(trend) and rng.random() < 0.5, "seasonal": seasonal, "sp": sp if seasonal else None,
+                "initialization_method": rng.choice(ES_INITS)}
+        r = rng.random()
+        if r < 0.4:
+            opts["use_boxcox"] = rng.choice([True, 0.5, False, 0.25])   # 'log' is rejected by the installed statsmodels itself
+        elif r < 0.8:
+            opts["initialization_method"] = "known"
+            opts["initial_level"] = float(rng.randrange(20, 60))
+            if trend:
+                opts["initial_trend"] = 0.5 if trend in ("add", "additive") else 1.0625
+            if seasonal:
+                opts["initial_seasonal"] = [(0.25 * i if seasonal in ("add", "additive") else 1 + 0.0625 * i) for i in range(sp)]
+        out.append(_adapter_case(rng, "es", opts, sp))
+    for error in ("add", "mul"):
+        for trend in (None, "add", "mul"):
+            for damped in (False, True):
+                for seasonal in (None, "add", "mul"):
+                    for init in (("estimated", "heuristic") if thorough else (rng.choice(["estimated", "heuristic"]),)):
+                        sp = rng.choice([2, 3, 4]) if seasonal else 1
+                        opts = {"error": error, "trend": trend, "damped_trend": damped, "seasonal": seasonal, "sp": sp,
+                                "initialization_method": init}
+                        if rng.random() < 0.3:
+                            opts["maxiter"] = rng.choice([50, 200])
+                        out.append(_adapter_case(rng, "ets", opts, sp))
+    for lvl in (None, 0.0, 30.0, 45.5):
+        for sp in (1, 4):
+            for _ in range(3 if thorough else 1):
+                out.append(_adapter_case(rng, "theta", {"initial_level": lvl, "sp": sp}, None))
+    return out
 
 
 def gen_cases(tier, rng):
@@ -815,17 +1006,8 @@ def gen_cases(tier, rng):
                                               "rel": rng.random() < 0.7}))
     cases.append({"kind": "design", "degree": 2, "icpt": True, "n": 4, "origin": 0, "fh": [], "rel": True})
     cases.append({"kind": "design", "degree": 2, "icpt": True, "n": 4, "origin": 0, "fh": [1, 1], "rel": True})
-    # 7. statsmodels adapters against a direct statsmodels call
-    for _ in range(700 if thorough else 120):
-        cls = rng.choice(ADAPTERS)
-        n = rng.randrange(2 * HW_SP + 8, 40) if cls == "hw" else rng.randrange(10, 40)
-        base = rng.randrange(5, 50)
-        slope = rng.choice([0, 0.25, 0.5, 1, -0.25])
-        y = [base + slope * i + rng.randrange(0, 9) / 4 + (2.0 * ((i % HW_SP) == 0) if cls == "hw" else 0) for i in range(n)]
-        pool = list(range(-min(n - 1, 6), 13))
-        fh = sorted(rng.sample(pool, rng.randrange(1, 7)))
-        cases.append({"kind": "adapter", "cls": cls, "y": y, "origin": rng.choice(ORIGINS), "idx": rng.choice(["range", "int"]),
-                      "fh": fh, "rel": rng.random() < 0.7})
+    # 7. statsmodels-backed forecasters: option product, against the statsmodels model built directly with the same options
+    cases.extend(adapter_cases(thorough, rng))
     return cases
 
 
